@@ -32,9 +32,9 @@ def impl_case(case):
     fired = []
     kind = case["kind"]
     if kind == "row":
-        c = ListRowContainer(2)
+        c = ListRowContainer(1)
     elif kind == "col":
-        c = ListColumnContainer(2)
+        c = ListColumnContainer(1)
     else:
         c = WindowContainer("t")
     if kind != "win":
@@ -47,12 +47,25 @@ def impl_case(case):
             c.add(TextWidget("w"), None, data)
         else:
             c.add(TextWidget("w"), (lambda d, cb=cb: fired.append([cb, d])), data)
+    hist = case.get("history")
+    if hist and kind != "win" and case["numbering"]:
+        # the container was already shown with ANOTHER numbering before the current one was set
+        final = c.key_pattern
+        c.key_pattern = KeyPattern(hist[0] + "{:d}" + hist[1], hist[2])
+        c.render(80)
+        c.key_pattern = final
     key = case["key"]
     k = key[1] if isinstance(key, list) else key
     handled = c.process_user_input(k)
     labels = []
     if c.key_pattern is not None:
-        labels = [cps(c.key_pattern.get_widget_label(i)) for i in range(len(case["items"]))]
+        # what is DISPLAYED next to each item: read it off the rendered container (one item "w" per row)
+        c.render(80)
+        lines = c.get_lines()
+        if len(lines) == len(case["items"]) and all(l.endswith("w") for l in lines):
+            labels = [cps(l[:-1]) for l in lines]
+        else:
+            labels = [cps("?unexpected render: %r" % (lines[:3],))]
     return [1 if handled is True else (0 if handled is False else 2), fired, labels]
 
 
@@ -91,6 +104,13 @@ def gen_cases(tier, rng):
                 for key in ["1", str(off), "", None]:
                     cases.append(dict(kind=kind, numbering=False, prefix=pre, suffix=suf, offset=off, items=items, key=key))
                     cases.append(dict(kind="win", numbering=False, prefix=pre, suffix=suf, offset=off, items=items, key=key))
+    # histories: rendered once under another numbering, then re-numbered
+    for off in (0, 1, 5, 11):
+        for n in (1, 3, 10):
+            items = [(100 + i, 7 * i) for i in range(n)]
+            for key in [str(off), str(off + n - 1), str(off + 1), "1", str(off + 7)]:
+                cases.append(dict(kind=["row", "col"][(off + n) % 2], numbering=True, prefix="", suffix=") ", offset=off,
+                                  items=items, key=key, history=["", ") ", off + 7]))
     # big offsets / many items / random ASCII keys
     alphabet = "0123456789" * 3 + "+-_ \t\n\x0b\x1c.xe"
     nr = 1500 if tier == "quick" else 30000
